@@ -1200,6 +1200,82 @@ func enumAssembly(r *hx.Run, kind string) {
 	}
 }
 
+// enumCross covers the rules that relate DIFFERENT statements (unique names, one statement per scope, the
+// wildcard scope in one statement only, at most one global statement) on documents with 3 (thorough: also 4)
+// statements, so that the two conflicting statements need not be adjacent or first: every statement
+// independently takes one of the feature combinations below - the full product.
+func enumCross(r *hx.Run, kind string) {
+	type feat struct {
+		dupName bool // name of statement 0 instead of an own name
+		scope   int  // oci: 0 own scope, 1 the shared scope, 2 the wildcard scope
+		global  bool // blob
+		skip    bool // skip level (no stores, no identities)
+	}
+	var feats []feat
+	for _, dn := range []bool{false, true} {
+		for _, sk := range []bool{false, true} {
+			if kind == "oci" {
+				for sc := 0; sc < 3; sc++ {
+					feats = append(feats, feat{dupName: dn, scope: sc, skip: sk})
+				}
+			} else {
+				for _, g := range []bool{false, true} {
+					feats = append(feats, feat{dupName: dn, global: g, skip: sk})
+				}
+			}
+		}
+	}
+	own := []string{"reg.io/a", "reg.io/b", "other.io/lib/app_1.x-y", "localhost/x1"}
+	sizes := []int{3}
+	if r.Thorough() {
+		sizes = []int{3, 4}
+	}
+	total := 0
+	for _, k := range sizes {
+		n := 1
+		for i := 0; i < k; i++ {
+			n *= len(feats)
+		}
+		total += n
+		k := k
+		const chunk = 256
+		r.Parallel((n+chunk-1)/chunk, func(c int) {
+			t := newTally()
+			defer t.flush()
+			for idx := c * chunk; idx < (c+1)*chunk && idx < n; idx++ {
+				d := &docSpec{Kind: kind, Version: "1.0"}
+				x := idx
+				for i := 0; i < k; i++ {
+					f := feats[x%len(feats)]
+					x /= len(feats)
+					st := stmtSpec{Name: fmt.Sprintf("s%d", i), Level: "strict", Stores: []string{"ca:a"}, Ids: []string{"*"}}
+					if f.dupName && i > 0 {
+						st.Name = "s0"
+					}
+					if f.skip {
+						st.Level, st.Stores, st.Ids = "skip", nil, nil
+					}
+					if kind == "oci" {
+						switch f.scope {
+						case 0:
+							st.Scopes = []string{own[i]}
+						case 1:
+							st.Scopes = []string{"reg.io/a/b"}
+						case 2:
+							st.Scopes = []string{"*"}
+						}
+					} else {
+						st.Global = f.global
+					}
+					d.Stmts = append(d.Stmts, st)
+				}
+				judgeSpec(r, t, d, "cross-statement", fmt.Sprintf("%s-cross-%d[%d]", kind, k, idx))
+			}
+		}, nil)
+	}
+	r.Extra[kind+"_cross_statement_documents"] = total
+}
+
 // both documents handed to one verifier: accepted iff both are well-formed
 func enumBoth(r *hx.Run) {
 	ob, bb := baseDocs("oci"), baseDocs("blob")
@@ -1323,6 +1399,7 @@ func main() {
 	for _, kind := range []string{"oci", "blob"} {
 		enumEdits(r, kind)
 		enumAssembly(r, kind)
+		enumCross(r, kind)
 	}
 	enumBoth(r)
 	// hand the violations and totals to the run (sorted, single-threaded)
